@@ -52,7 +52,7 @@ impl Property for C20 {
         "C20"
     }
     fn rule(&self) -> String {
-        "Cases: (LHS operand, RHS vector of any type/length or native integer, operator in {+,-,*,/,%,&,|,^,<<,>>,!}). For each case ALL forms are applied side by side: &a.&b, a.&b, &a.b, a.b, a.=&b, a.=b (6 shift forms; 2 for !); for a native x additionally the same operator with a vector built from x as Bvd, Bv and Bvf<u64,3>, and for shifts the same amount in every native type that can hold it. Oracle: every form's result equals the model result (same length, same bits, light battery) - or every form panics when the divisor is zero - and the operands re-read after all by-reference uses and after in-place operations on clones equal their pre-call snapshots (bits, bytes, capacity). Enumerated: all (n,a,m,b) n,m<=2 (quick)/<=5 (thorough) x 19x19 pairings x 8 binary operators x 6 forms, and shifts/! on all values n<=4/6 x all amounts 0..n+1 x 6 amount types x 6 forms. Non-trivial: n>0 and the result differs from a. Distinct by hash of the case.".into()
+        "Cases: (LHS operand, RHS vector of any type/length or native integer, operator in {+,-,*,/,%,&,|,^,<<,>>,!}). For each case ALL forms are applied side by side: &a.&b, a.&b, &a.b, a.b, a.=&b, a.=b (6 shift forms; 2 for !); for a native x additionally the same operator with a vector built from x as Bvd, Bv and Bvf<u64,3>, and for shifts the same amount in every native type that can hold it. Oracle: every form's result equals the model result (same length, same bits, light battery) - or every form panics when the divisor is zero - and the operands re-read after all by-reference uses and after in-place operations on clones equal their pre-call snapshots (bits, bytes, capacity). Enumerated: all (n,a,m,b) n,m<=3 (quick)/<=5 (thorough) x 19x19 pairings x 8 binary operators x 6 forms, and shifts/! on all values n<=4/6 x all amounts 0..n+1 x 6 amount types x 6 forms. Non-trivial: n>0 and the result differs from a. Distinct by hash of the case.".into()
     }
     fn random_cases(&self, tier: Tier) -> u64 {
         tier.pick(125000, 4800000)
@@ -71,12 +71,12 @@ impl Property for C20 {
     }
     fn exhaustive_subspaces(&self, tier: Tier) -> Vec<String> {
         vec![
-            format!("all values of both operands for n,m<={} x 19x19 pairings x 8 binary operators x all 6 forms", tier.pick(2, 5)),
+            format!("all values of both operands for n,m<={} x 19x19 pairings x 8 binary operators x all 6 forms", tier.pick(3, 5)),
             format!("all values n<={} x amounts 0..=n+1 x 6 amount types x 6 shift forms x 19 types; ! both forms", tier.pick(4, 6)),
         ]
     }
     fn enumerate(&self, tier: Tier, sh: &mut Shard, f: &mut dyn FnMut(C20Case) -> bool) {
-        let k = tier.pick(2, 5);
+        let k = tier.pick(3, 5);
         for lt in 0..NT {
             for rt in 0..NT {
                 if !sh.mine() {
@@ -87,9 +87,13 @@ impl Property for C20 {
                         for a in all_values(n) {
                             for b in all_values(m) {
                                 for op in BIN_OPS {
-                                    let c = C20Case { a: Operand::canon(lt, a.clone()), b: Rhs::V(Operand::canon(rt, b.clone())), op: AnyOp::Bin(op) };
-                                    if !f(c) {
-                                        return;
+                                    for pa in scope_provs(lt) {
+                                        for pb in scope_provs(rt) {
+                                            let c = C20Case { a: Operand { ty: lt, bits: a.clone(), prov: pa.clone() }, b: Rhs::V(Operand { ty: rt, bits: b.clone(), prov: pb }), op: AnyOp::Bin(op) };
+                                            if !f(c) {
+                                                return;
+                                            }
+                                        }
                                     }
                                 }
                             }
